@@ -8,6 +8,7 @@ handed to the model), error messages."""
 import contextlib
 import io
 import json
+import os
 import re
 import string
 from collections import Counter
@@ -47,8 +48,23 @@ RULE = ("cases: (i) scramble_number on batches of consecutive numbers around 2^k
         "top-level draws are observed in order and every output cell holds, character for character, the value its "
         "generator returned for it (also for every run of a chain); the alphabet / template arguments observed on "
         "arrival at the plugin's functions are the ones the recipe spells. "
+        "(x) ONE GENERATOR, SEVERAL NAMES: recipes whose generators (numeric and alpha; templates without `context` - "
+        "`index`, `pid,index`, literals - in most cases, default and `context` templates in the rest) live in hidden "
+        "fields of 1-3 just_once rows (with / without nickname, two rows of one table), of ordinary rows or in "
+        "`var:`s, every generator read 2-5 times per row through different names: nickname, table name, a "
+        "`reference:` field of the row being made (plain and `this.`), a `var:` holding a reference, a second "
+        "just_once row referring to the first, and from friend rows the parent's name / a reference to the parent; "
+        "run as chains of 2-4 runs, fresh or continued, the continuation handed over as text, as files, through "
+        "snowfakery.cli in the process and through `python -m snowfakery` in a fresh process; oracle: the ids / codes "
+        "drawn in one run (one iteration for per-iteration holders) from what the recipe treats as ONE generator "
+        "are pairwise distinct whatever names were used, every name yields an id / a code over the alphabet of "
+        "min_chars length, generators of one shape containing `context` never share a value over the runs of the "
+        "process; model: the runs as a program over names (store of names, aliases, continuation = every "
+        "generator rebuilt once with all its names), compared on the index of every draw, which is read back "
+        "from the output value with unscramble_number. "
         "non-trivial: a batch with >= 2 distinct accepted numbers, a process with a generator drawn >= 2 "
-        "times, a recipe with >= 2 rows; distinct by case hash")
+        "times, a recipe with >= 2 rows, a names case with >= 2 runs in which a generator was read through >= 2 "
+        "names; distinct by case hash")
 TRUSTED = ["harness/c13.py: which output cell belongs to which draw is taken from the ORDER of the public unique_id calls "
            "(fields draw once each, in the order written; `var:` fields before the row); when the number of draws is "
            "not the number of cells no position is claimed",
@@ -57,6 +73,10 @@ TRUSTED = ["harness/c13.py: which output cell belongs to which draw is taken fro
            "in chain cases the masks form ONE table for the whole process)",
            "harness/c13.py: class-level wrappers around UniqueNumericIdGenerator / AlphaUniquifier __init__ and "
            "unique_id (the trace of a chain case)",
+           "harness/c13.py (names cases): the program over names handed to the model is written by the harness from "
+           "the recipe's shape (just_once holders are made in the first iteration of a fresh run, other holders in "
+           "every iteration, draws in the order of the output cells); the index of a draw is read back from the output "
+           "value by scrambled_numbers.unscramble_number and by splitting the decimal digits at the 9s",
            "harness/c13.py: parse_template is used by the ORACLE only (which generators are claimed distinct); the "
            "model receives the raw template string and parses it itself (parse_template in UniqueId.v, ASCII)"]
 ASSUMPTIONS = ["the scramble mask is ONE function of (key, numbits) for the whole process (checked: per case, and in "
@@ -619,6 +639,121 @@ def gen_padding_probe(rng, abc=None):
             "schedule": [[0, draws]], "sample": {"0": [0, 1, 2, 31, 32, 33, 511, 512, draws - 1]}}
 
 
+# ---------------------------------------------------------------- ONE generator, several names (round 5)
+# A generator stored in a hidden field of a just_once row is ONE generator for the recipe, whatever name a formula
+# uses to get at the row: its nickname, its table name, a `reference:` field of the row that is being made, a
+# `var:` holding a reference, the parent row of a friend, a second just_once row that refers to it.  The names
+# must keep denoting one generator after every continuation (text / file / command line / fresh process).
+NAMES_TABLES = [("Sequence", "Seq"), ("Counter", "Cnt"), ("IdRegistry", "Registry"), ("Numbering", "Num")]
+NAMES_ALPHABETS = [None, None, "ACGT", B62, "ABCDEFGHJKLMNPQRSTUVWXYZ", DEFAULT_ALPHABET]
+ROUTES_ORDER = ["direct", "ref", "var", "keeper"]       # names usable in a field of an Order row
+ROUTES_LINE = ["direct", "var", "parent", "up"]          # names usable in a field of a Line row (friend of Order)
+
+
+def _names_gen(rng, i, alpha_ok, no_context=None):
+    r = rng.random()
+    if no_context or (no_context is None and r < 0.6):
+        tpl = _template(rng, want_context=False)
+    elif r < 0.78:
+        tpl = None
+    else:
+        tpl = _template(rng, want_context=True)
+    if alpha_ok and rng.random() < 0.7:
+        abc = rng.choice(NAMES_ALPHABETS)
+        mc = rng.choice([None, None, 6, 10, 12])
+        rc = rng.choice([None, None, False])
+        if rc is not False and max(8 if mc is None else mc, 4) * (len(abc or DEFAULT_ALPHABET).bit_length() - 1) < 10:
+            mc = 12
+        return {"fld": f"g{i}", "type": "alpha", "template": tpl, "alphabet": abc, "min_chars": mc,
+                "randomize_codes": rc}
+    return {"fld": f"g{i}", "type": "num", "template": tpl}
+
+
+def _names_families(holders, h):
+    """by which spellings the row of holder h can be named: its nickname, its table name (the table name denotes
+    the LAST just_once row of that table)"""
+    hd = holders[h]
+    if hd.get("kind") == "var":
+        return ["nick"]
+    fam = []
+    if hd["nick"]:
+        fam.append("nick")
+    if all(o["table"] != hd["table"] for o in holders[h + 1:]):
+        fam.append("table")
+    return fam
+
+
+def gen_names(rng, no_context=None, vias=None):
+    # keeper chains (a second just_once row referring to the first) and alpha generators do not survive a
+    # continuation in /repo (references of saved rows are dropped; AlphaUniquifier has no saved form): such cases
+    # consist of fresh runs only
+    fresh_only = rng.random() < 0.2
+    pool = rng.sample(NAMES_TABLES, len(NAMES_TABLES))
+    holders = []
+    for h in range(rng.choice([1, 2, 2, 3, 3])):
+        # where the generator lives: a just_once row (one generator for the whole lineage of runs), an ordinary
+        # row with count 1 or a `var:` (one generator per iteration)
+        kind = rng.choice(["once", "once", "row", "var"]) if h > 0 or fresh_only else "once"
+        if h > 0 and holders[-1]["kind"] != "var" and rng.random() < 0.25:
+            # twin: a second row of the same table and kind, own nickname; the table name denotes the later one
+            table, kind = holders[-1]["table"], holders[-1]["kind"]
+            holders[-1]["nick"] = holders[-1]["nick"] or f"{table[:3]}{h - 1}"
+            nick = f"{table[:3]}{h}"
+        elif kind == "var":
+            table, nick = None, f"G{h}"
+        else:
+            table, nick = pool.pop()
+            if rng.random() < 0.15:
+                nick = None
+        ngen = 1 if kind == "var" else rng.choice([1, 1, 2])
+        holders.append({"kind": kind, "table": table, "nick": nick,
+                        "gens": [_names_gen(rng, i, fresh_only or kind != "once", no_context) for i in range(ngen)]})
+    lines = rng.choice([0, 0, 1, 2])
+    reads = []
+    for h, hd in enumerate(holders):
+        fams = _names_families(holders, h)
+        for g in range(len(hd["gens"])):
+            nread = rng.choice([2, 3, 3, 4, 5])
+            picked = []
+            for j in range(nread):
+                # the first two reads use two different spellings when the row has two
+                fam = fams[j % len(fams)] if j < 2 and rng.random() < 0.85 else rng.choice(fams)
+                row = "Line" if lines and rng.random() < 0.3 else "Order"
+                routes = ROUTES_LINE if row == "Line" else ROUTES_ORDER
+                route = "direct" if hd["kind"] == "var" else \
+                    rng.choice([r for r in routes if r != "keeper" or (fresh_only and hd["kind"] == "once")])
+                picked.append({"h": h, "g": g, "fam": fam, "route": route, "row": row})
+            reads.extend(picked)
+    rng.shuffle(reads)
+    links, procs = [], 0
+    for k in range(rng.choice([2, 3, 3, 4])):
+        via = rng.choice(vias or ["text", "text", "path", "path", "cli", "cli", "proc"])
+        if via == "proc":
+            procs += 1
+            if procs > 1:
+                via = "cli"
+        links.append({"via": via, "cont": k > 0 and not fresh_only and rng.random() < 0.8,
+                      "n": rng.choice([1, 1, 2, 3])})
+    return {"kind": "names", "ctx0": _ctx0(rng), "big": rng.choice([None, None, False, True]),
+            "pid": rng.choice([None, None, 3, 4242]), "holders": holders, "reads": reads,
+            "count": rng.choice([1, 1, 2, 3]), "lines": lines, "links": links}
+
+
+def gen_names_edges():
+    """the plainest members of the class: one just_once row with a nickname, one numeric generator, read through
+    the nickname and through the table name, run once and continued three times"""
+    out = []
+    for i, tpl in enumerate(["pid, index", "index", "7, index", "pid,context,index", None, "index,pid,3"]):
+        via = ["text", "path", "cli"][i % 3]
+        out.append({"kind": "names", "ctx0": 1, "big": None, "pid": None, "count": 2, "lines": 0,
+                    "holders": [{"kind": "once", "table": "Sequence", "nick": "Seq",
+                                 "gens": [{"fld": "g0", "type": "num", "template": tpl}]}],
+                    "reads": [{"h": 0, "g": 0, "fam": "nick", "route": "direct", "row": "Order"},
+                              {"h": 0, "g": 0, "fam": "table", "route": "direct", "row": "Order"}],
+                    "links": [{"via": via, "cont": k > 0, "n": 2} for k in range(4)]})
+    return out
+
+
 def generate(rng, tier):
     q = tier == "quick"
     cases = list(gen_scramble_edges())
@@ -650,6 +785,10 @@ def generate(rng, tier):
     cases.extend(gen_chain_edges())
     for i in range(14 if q else 200):
         cases.append(gen_chain(rng, tier, shape="declared" if i % 3 == 0 else None))
+    # round 5 (after everything else: the older cases of a seed stay what they were)
+    cases.extend(gen_names_edges())
+    for i in range(30 if q else 600):
+        cases.append(gen_names(rng, no_context=True if i % 3 == 0 else None))
     return cases
 
 
@@ -795,6 +934,8 @@ def run_impl(case):
         return _run_recipe(case)
     if kind == "chain":
         return _run_chain(case)
+    if kind == "names":
+        return _run_names(case)
     raise ValueError(kind)
 
 
@@ -1349,6 +1490,351 @@ def _run_chain(case):
             "replayed": tr.orig_scramble is not None, "n_scr": tr.scr_seen}
 
 
+# ---------------------------------------------------------------- one generator, several names: recipe and runs
+def _names_spelling(case, rd):
+    """the expression (without `.__fld.unique_id`) by which read `rd` names the row of its holder, plus what the
+    recipe must declare for it: (expr, order_ref_field | None, var | None, keeper_field | None)"""
+    hd = case["holders"][rd["h"]]
+    target = hd["nick"] if rd["fam"] == "nick" else hd["table"]
+    tag = f"{rd['h']}{'n' if rd['fam'] == 'nick' else 't'}"
+    route = rd["route"]
+    if route == "direct":
+        return target, None, None, None
+    if route == "ref":
+        return f"r{tag}", (f"r{tag}", target), None, None
+    if route == "this":
+        return f"this.r{tag}", (f"r{tag}", target), None, None
+    if route == "var":
+        return f"S{tag}", None, (f"S{tag}", target), None
+    if route == "keeper":
+        return f"Kp.k{tag}", None, None, (f"k{tag}", target)
+    if route == "keeper_table":
+        return f"Keeper.k{tag}", None, None, (f"k{tag}", target)
+    if route == "parent":
+        return f"Order.r{tag}", (f"r{tag}", target), None, None
+    if route == "up":
+        return f"o.r{tag}", (f"r{tag}", target), None, None
+    raise ValueError(route)
+
+
+def _names_route(rd, i):
+    """two spellings of the same route alternate with the position of the read"""
+    if rd["route"] == "ref" and i % 2:
+        return dict(rd, route="this")
+    if rd["route"] == "keeper" and i % 2:
+        return dict(rd, route="keeper_table")
+    return rd
+
+
+def _names_fld(case, rd):
+    hd = case["holders"][rd["h"]]
+    return "" if hd.get("kind") == "var" else f".__{hd['gens'][rd['g']]['fld']}"
+
+
+def names_exprs(case):
+    return [_names_spelling(case, _names_route(rd, i))[0] + _names_fld(case, rd)
+            for i, rd in enumerate(case["reads"])]
+
+
+def names_text(case):
+    lines = ["- plugin: snowfakery.standard_plugins.UniqueId"]
+    for hd in case["holders"]:
+        kind = hd.get("kind", "once")
+        if kind == "var":
+            lines += [f"- var: {hd['nick']}", "  value:"]
+            ind = "    "
+        else:
+            lines.append(f"- object: {hd['table']}")
+            if hd["nick"]:
+                lines.append(f"  nickname: {hd['nick']}")
+            lines += (["  just_once: true"] if kind == "once" else []) + ["  fields:"]
+            ind = "      "
+        for v in hd["gens"]:
+            if kind != "var":
+                lines.append(f"    __{v['fld']}:")
+            if v["type"] == "num":
+                lines.append(ind + "UniqueId.NumericIdGenerator:")
+            else:
+                lines.append(ind + "UniqueId.AlphaCodeGenerator:")
+                if v["alphabet"] is not None:
+                    lines.append(ind + f"  alphabet: {json.dumps(v['alphabet'])}")
+                if v["min_chars"] is not None:
+                    lines.append(ind + f"  min_chars: {v['min_chars']}")
+                if v["randomize_codes"] is not None:
+                    lines.append(ind + f"  randomize_codes: {'true' if v['randomize_codes'] else 'false'}")
+            if v["template"] is not None:
+                lines.append(ind + f"  template: {json.dumps(v['template'])}")
+    refs, vars_, keeps, order_f, line_f = [], [], [], [], []
+    for i, rd in enumerate(case["reads"]):
+        rd = _names_route(rd, i)
+        expr, ref, var, keep = _names_spelling(case, rd)
+        for lst, x in ((refs, ref), (vars_, var), (keeps, keep)):
+            if x is not None and x not in lst:
+                lst.append(x)
+        (line_f if rd["row"] == "Line" else order_f).append(
+            f"f{i}: ${{{{{expr}{_names_fld(case, rd)}.unique_id}}}}")
+    if keeps:
+        lines += ["- object: Keeper", "  nickname: Kp", "  just_once: true", "  fields:"]
+        for name, target in keeps:
+            lines += [f"    {name}:", f"      reference: {target}"]
+    for name, target in vars_:
+        lines += [f"- var: {name}", "  value:", f"    reference: {target}"]
+    lines += ["- object: Order", f"  count: {case['count']}", "  fields:"]
+    for name, target in refs:
+        lines += [f"    {name}:", f"      reference: {target}"]
+    lines += ["    " + f for f in order_f]
+    if not refs and not order_f:
+        lines.append("    plain: 1")
+    if case["lines"] and line_f:
+        lines += ["  friends:", "    - object: Line", f"      count: {case['lines']}", "      fields:",
+                  "        o:", "          reference: Order"]
+        lines += ["        " + f for f in line_f]
+    return "\n".join(lines) + "\n"
+
+
+def _names_index(case, spec, v, unscramble):
+    """the index the generator used for the id / code v, read back from v alone: (alpha: the code as a number
+    over its alphabet,) unscramble_number - the public inverse of the scramble -, the decimal digits split at the
+    9s, every chunk an octal number; the chunk at the place of `index`.  None when v does not have that form."""
+    typ, shape, optkey = _names_spec(case, spec)
+    if shape is None or "PIndex" not in shape or not callable(unscramble):
+        return None
+    try:
+        if typ == "num":
+            if isinstance(v, bool) or not isinstance(v, int):
+                return None
+            n = unscramble(v)
+        else:
+            abc, code = optkey[1], str(v)
+            if isinstance(v, bool) or not isinstance(v, (str, int)) or len(set(abc)) != len(abc) or \
+                    any(ch not in abc for ch in code):
+                return None
+            n = 0
+            for ch in code:
+                n = n * len(abc) + abc.index(ch)
+            if optkey[3]:
+                n = unscramble(n)
+        if isinstance(n, bool) or not isinstance(n, int) or n < 0:
+            return None
+        chunks = str(n).split("9")
+        if chunks[0] == "" and len(chunks) > 1:
+            chunks[0] = "0"             # a leading number 0 disappears in front of its separator
+        if any(not re.fullmatch(r"[0-7]+", ch) for ch in chunks):
+            return None
+        # `pid` is one number when the pid option reached the constructor, otherwise two (seconds, os pid); a
+        # generator rebuilt by a continuation never gets the option
+        for npid in (1, 2):
+            want, at = 0, None
+            for part in shape:
+                if part == "PIndex" and at is None:
+                    at = want
+                want += npid if part == "PPid" else 1
+            if len(chunks) == want:
+                return int(chunks[at], 8)
+        return None
+    except Exception:   # noqa
+        return None
+
+
+def _names_rows(case, txt, unscramble):
+    """the Order / Line rows in output order, each with its f<i> cells [read index, value, index read back]"""
+    rows = []
+    for row in json.loads(txt) if txt.strip() else []:
+        t = row.get("_table")
+        if t not in ("Order", "Line"):
+            continue
+        cells = []
+        for k, v in row.items():
+            if re.fullmatch(r"f[0-9]+", k) and int(k[1:]) < len(case["reads"]):
+                rd = case["reads"][int(k[1:])]
+                spec = case["holders"][rd["h"]]["gens"][rd["g"]]
+                idx = _names_index(case, spec, v, unscramble)
+                cells.append([int(k[1:]), _plain(v), idx if idx is None or idx < 10 ** 9 else None])
+        rows.append([t, cells])
+    return rows
+
+
+def _names_cells(rows):
+    """[read index, row number within its table, value] of every f<i> cell, in output order"""
+    cells, nrow = [], Counter()
+    for t, cs in rows:
+        for i, v, _idx in cs:
+            cells.append([i, nrow[t], v])
+        nrow[t] += 1
+    return cells, nrow["Order"]
+
+
+def _run_names(case):
+    import subprocess
+    import sys
+    import tempfile
+    import warnings
+    import snowfakery.standard_plugins.UniqueId as U
+    import snowfakery.utils.scrambled_numbers as sn
+    from snowfakery import generate_data
+    ctx_set = _set_ctx0(U, case)
+    text = names_text(case)
+    opts = {}
+    if case["big"] is not None:
+        opts["big_ids"] = "true" if case["big"] else "false"
+    if case["pid"] is not None:
+        opts["pid"] = case["pid"]
+    runs, prev = [], None
+    with tempfile.TemporaryDirectory(prefix="c13names") as tmp, warnings.catch_warnings():
+        warnings.simplefilter("ignore")
+        recipe = os.path.join(tmp, "recipe.yml")
+        with open(recipe, "w", encoding="utf-8") as w:
+            w.write(text)
+        for k, link in enumerate(case["links"]):
+            use_cont = bool(link["cont"]) and prev is not None
+            target = case["count"] * link["n"]
+            res = {"via": link["via"], "continued": use_cont, "target": target}
+            outp, nxtp, prevp = (os.path.join(tmp, f"{x}{k}") for x in ("out.json", "next.yml", "prev.yml"))
+            try:
+                if link["via"] == "text":
+                    out, nxt = io.StringIO(), io.StringIO()
+                    generate_data(io.StringIO(text), output_file=out, output_format="json", plugin_options=opts,
+                                  continuation_file=io.StringIO(prev) if use_cont else None,
+                                  generate_continuation_file=nxt, target_number=("Order", target))
+                    txt, new_prev = out.getvalue(), nxt.getvalue()
+                else:
+                    if use_cont:
+                        with open(prevp, "w", encoding="utf-8") as w:
+                            w.write(prev)
+                    if link["via"] == "path":
+                        generate_data(recipe, output_file=outp, output_format="json", plugin_options=opts,
+                                      continuation_file=prevp if use_cont else None,
+                                      generate_continuation_file=nxtp, target_number=("Order", target))
+                    else:
+                        args = [recipe, "--output-format", "json", "--output-file", outp,
+                                "--generate-continuation-file", nxtp, "--target-number", str(target), "Order"]
+                        if use_cont:
+                            args += ["--continuation-file", prevp]
+                        for name, v in opts.items():
+                            args += ["--plugin-option", name, str(v)]
+                        if link["via"] == "cli":
+                            import click
+                            from snowfakery.cli import generate_cli
+                            try:
+                                with contextlib.redirect_stdout(io.StringIO()), contextlib.redirect_stderr(io.StringIO()):
+                                    generate_cli.main(args, standalone_mode=False)
+                            except click.ClickException as e:
+                                if e.__cause__ is not None:
+                                    raise e.__cause__
+                                raise
+                        else:           # a fresh process started the way a shell starts it
+                            try:
+                                p = subprocess.run([sys.executable, "-W", "ignore", "-m", "snowfakery"] + args,
+                                                   stdout=subprocess.PIPE, stderr=subprocess.PIPE, text=True,
+                                                   timeout=max(20, CASE_TIMEOUT // 3))
+                            except (subprocess.TimeoutExpired, OSError) as e:
+                                res["skip"] = type(e).__name__
+                                runs.append(res)
+                                continue
+                            if p.returncode != 0:
+                                res["err"] = "exit %d: %s" % (p.returncode, (p.stderr or "").strip()[-300:])
+                                runs.append(res)
+                                continue
+                    with open(outp, encoding="utf-8") as r:
+                        txt = r.read()
+                    with open(nxtp, encoding="utf-8") as r:
+                        new_prev = r.read()
+                res["rows"] = _names_rows(case, txt, getattr(sn, "unscramble_number", None))
+                res["cells"], res["orders"] = _names_cells(res["rows"])
+                prev = new_prev
+            except BaseException as e:  # noqa
+                if isinstance(e, (KeyboardInterrupt, C._CaseTimeout)):
+                    raise
+                res["err"] = C.canon_exc(e)
+            runs.append(res)
+    return {"runs": runs, "ctx_set": bool(ctx_set)}
+
+
+def _names_spec(case, v):
+    """what the oracle may claim about one generator of a holder row: (type, shape, key of its options)"""
+    big = bool(case["big"])
+    tpl = v["template"]
+    if v["type"] == "num":
+        shape = _shape(tpl) if tpl else (("PPid", "PContext", "PIndex") if big else ("PContext", "PIndex"))
+        return "num", shape, ("num",)
+    shape = _shape(tpl) if tpl else (("PPid", "PContext", "PIndex") if big else ("PIndex",))
+    abc = v["alphabet"] or DEFAULT_ALPHABET
+    return "alpha", shape, ("alpha", abc, 8 if v["min_chars"] is None else v["min_chars"],
+                            v["randomize_codes"] is not False)
+
+
+def _names_failures(case, obs):
+    """ids drawn from what the recipe treats as ONE generator are pairwise distinct within every run, whatever
+    names the formulas used; generators whose template contains `context` never share a value with a generator of
+    the same shape and options anywhere in the runs of this process (fresh-process runs have a counter of their own
+    and take no part in that)."""
+    fails = []
+    exprs = names_exprs(case)
+    process_wide = {}
+    for k, run in enumerate(obs.get("runs", [])):
+        label = f"run {k} ({run.get('via')}, {'continued' if run.get('continued') else 'fresh'})"
+        if "skip" in run:
+            continue
+        if "err" in run:
+            fails.append(f"names: {label}: a valid recipe failed with {run['err']}")
+            continue
+        cells = run.get("cells", [])
+        if run.get("orders", 0) < run.get("target", 0):
+            fails.append(f"names: {label}: {run.get('orders')} Order rows instead of at least {run.get('target')}")
+        per_gen = {}
+        for i, ri, v in cells:
+            if not (0 <= i < len(case["reads"])):
+                continue
+            rd = case["reads"][i]
+            hd = case["holders"][rd["h"]]
+            spec = hd["gens"][rd["g"]]
+            typ, shape, optkey = _names_spec(case, spec)
+            here = f"`{exprs[i]}` ({rd['row']} row {ri} f{i})"
+            kind = hd.get("kind", "once")
+            what = (f"`var: {hd['nick']}`" if kind == "var" else
+                    f"field __{spec['fld']} of the {'just_once ' if kind == 'once' else ''}row {hd['table']}"
+                    f"{' (nickname ' + hd['nick'] + ')' if hd['nick'] else ''}")
+            # a generator held by a just_once row is one generator for the whole run; one held by a `var:` or by
+            # an ordinary row is made anew in every iteration
+            per_it = case["count"] * (case["lines"] if rd["row"] == "Line" else 1)
+            it = None if kind == "once" else ri // max(1, per_it)
+            if typ == "num":
+                if isinstance(v, bool) or not isinstance(v, int):
+                    fails.append(f"names: {label}: {here} did not give an id of the generator in {what} but {v!r}")
+                    continue
+                val = v
+            else:
+                if isinstance(v, bool) or not isinstance(v, (str, int)) or v == "":
+                    fails.append(f"names: {label}: {here} did not give a code of the generator in {what} but {v!r}")
+                    continue
+                val = str(v)
+                abc, mc = optkey[1], optkey[2]
+                if any(ch not in abc for ch in val):
+                    fails.append(f"names: {label}: code {val!r} from {here} has characters outside {abc!r}")
+                    continue
+                if len(val) < mc:
+                    fails.append(f"names: {label}: code {val!r} from {here} is shorter than min_chars={mc}")
+                    continue
+                if len(set(abc)) != len(abc):
+                    continue
+            if shape is None or "PIndex" not in shape:
+                continue
+            seen = per_gen.setdefault((rd["h"], rd["g"], it), {})
+            if val in seen:
+                fails.append(f"names: {label}: the generator in {what}, template {spec['template']!r}, handed out "
+                             f"{val!r} twice in one {'run' if it is None else 'iteration'}: through {seen[val]} and "
+                             f"through {here}")
+            seen.setdefault(val, here)
+            if "PContext" in shape and run.get("via") != "proc":
+                key = (optkey, shape)
+                who = (k, rd["h"], rd["g"], it)
+                old = process_wide.setdefault(key, {}).setdefault(val, (who, f"{label} {here}"))
+                if old[0] != who:
+                    fails.append(f"names: {val!r} was handed out twice in one process by generators whose template "
+                                 f"{spec['template']!r} contains `context`: {old[1]} and {label} {here}")
+    return fails
+
+
 _DELETE = object()
 
 
@@ -1819,8 +2305,84 @@ def _chain_term(case, obs, max_draws=500):
     return f"CProc {_cz(c0)} {masks} {bpct} {C.clist(terms)}"
 
 
+def _names_pspec(case, v):
+    big = bool(case["big"])
+    if v["type"] == "num":
+        tpl = v["template"] or ("pid,context,index" if big else "context,index")
+        src = _ascii_src(tpl)
+        return None if src is None else f"SNum {src} [] 1 true"
+    tpl = v["template"] or ("pid,context,index" if big else "index")
+    src = _ascii_src(tpl)
+    mc = 8 if v["min_chars"] is None else v["min_chars"]
+    return None if src is None else \
+        f"SAlpha {src} [] {_abc_opt(v['alphabet'])} {_cz(mc)} {C.cbool(v['randomize_codes'] is not False)}"
+
+
+def _names_term(case, obs, max_draws=1500):
+    """CNames: the runs of the case as a program over names (the model's store decides which generator a name
+    denotes, also after continuations) and, per draw, the index read back from the value in the output.  Generator
+    (h, g) has a base name; every spelling used by a read is a name of its own, declared an alias when the holder
+    row / variable is made."""
+    runs = obs.get("runs", [])
+    if not runs or any("rows" not in r for r in runs):
+        return None                    # a run failed or was skipped: nothing to compare
+    exprs = names_exprs(case)
+    base, spell = {}, {}
+    for h, hd in enumerate(case["holders"]):
+        for g in range(len(hd["gens"])):
+            base[(h, g)] = len(base)
+    names = dict(base)
+    for i, rd in enumerate(case["reads"]):
+        key = ("s", exprs[i])
+        names.setdefault(key, len(names))
+        spell.setdefault((rd["h"], rd["g"]), [])
+        if names[key] not in spell[(rd["h"], rd["g"])]:
+            spell[(rd["h"], rd["g"])].append(names[key])
+    specs = {}
+    for (h, g) in base:
+        sp = _names_pspec(case, case["holders"][h]["gens"][g])
+        if sp is None:
+            return None
+        specs[(h, g)] = sp
+
+    def make(h):
+        out = []
+        for g in range(len(case["holders"][h]["gens"])):
+            out.append(f"NNew {base[(h, g)]}%nat ({specs[(h, g)]})")
+            out += [f"NAlias {s}%nat {base[(h, g)]}%nat" for s in spell.get((h, g), [])]
+        return out
+
+    prog, idxs = [], []
+    for k, run in enumerate(runs):
+        if k > 0:
+            for h, hd in enumerate(case["holders"]):       # what lives for one iteration is not saved
+                if hd.get("kind", "once") != "once":
+                    for g in range(len(hd["gens"])):
+                        prog.append(f"NForget {base[(h, g)]}%nat")
+                        prog += [f"NForget {s}%nat" for s in spell.get((h, g), [])]
+            prog.append("NContinue" if run.get("continued") else "NFresh")
+        norder = 0
+        for t, cells in run["rows"]:
+            if t == "Order":
+                if norder % max(1, case["count"]) == 0:        # an iteration starts: the statements above Order
+                    for h, hd in enumerate(case["holders"]):
+                        if hd.get("kind", "once") != "once" or (norder == 0 and not run.get("continued")):
+                            prog += make(h)
+                norder += 1
+            for i, v, idx in cells:
+                if idx is None:
+                    return None         # a value that does not read back as (numbers..., index): the oracle's business
+                prog.append(f"NDraw {names[('s', exprs[i])]}%nat")
+                idxs.append(idx)
+    if not idxs or len(idxs) > max_draws:
+        return None
+    return f"CNames {C.clist(prog)} {C.clist(_cz(x) for x in idxs)}"
+
+
 def coq_case(case, obs):
     kind = case["kind"]
+    if kind == "names":
+        return _names_term(case, obs)
     have = obs.get("have", {})
     if kind == "scramble":
         if not have.get("mask"):
@@ -2353,6 +2915,9 @@ def oracle(case, obs):
             return (f"gens: mask_for_key({k},{nb}) returned {m1} and later {m2} in the same process: "
                     f"scramble_number is no longer a function of its input (the injectivity argument needs it)")
         return None
+    if kind == "names":
+        fails = _names_failures(case, obs)
+        return fails[0] if fails else None
     if kind in ("recipe", "chain"):
         other, k5, mangled, xshape, v2float = _recipe_failures(case, obs) if kind == "recipe" else \
             _chain_failures(case, obs)
@@ -2431,6 +2996,16 @@ def nontrivial(case, obs):
         return len(obs.get("rows", [])) >= 2
     if kind == "chain":      # at least two runs that produced rows
         return sum(1 for r in obs.get("runs", []) if len(r.get("rows", [])) >= 1) >= 2
+    if kind == "names":      # at least two runs in which some generator was read through two different names
+        exprs = names_exprs(case)
+        good = 0
+        for r in obs.get("runs", []):
+            by = {}
+            for i, ri, v in r.get("cells", []):
+                if 0 <= i < len(case["reads"]):
+                    by.setdefault((case["reads"][i]["h"], case["reads"][i]["g"]), set()).add(exprs[i])
+            good += any(len(x) >= 2 for x in by.values())
+        return good >= 2
     return False
 
 
@@ -2442,6 +3017,7 @@ def stats(cases, obss):
     features = Counter()
     chain = Counter()
     wayout = Counter()
+    names = Counter()
     total_draws = total_numbers = 0
     for c, o in zip(cases, obss):
         if not isinstance(o, dict):
@@ -2550,6 +3126,49 @@ def stats(cases, obss):
                 posr = _positional(rc_, r)
                 chain["runs_with_every_cell_tied_to_its_draw"] += posr is not None
                 chain["cells_compared_with_their_draw"] += len(posr or {})
+        elif k == "names":
+            names["cases"] += 1
+            for h in c["holders"]:
+                names["generator_held_by:" + {"once": "just_once_row", "row": "ordinary_row",
+                                              "var": "var"}[h.get("kind", "once")]] += 1
+            names["holder_rows_without_nickname"] += sum(1 for h in c["holders"] if not h["nick"])
+            tabs = [h["table"] for h in c["holders"] if h["table"]]
+            names["cases_with_two_holder_rows_of_one_table"] += len(set(tabs)) < len(tabs)
+            for h in c["holders"]:
+                for v in h["gens"]:
+                    typ, shape, _ = _names_spec(c, v)
+                    names["generators_" + typ] += 1
+                    names["template_" + ("default" if v["template"] is None else "given")] += 1
+                    names["template_" + ("with" if shape and "PContext" in shape else "without") + "_context"] += 1
+                    for x in shape or ():
+                        names["template_part:" + ("PNum" if x.startswith("(PNum") else x)] += 1
+            for i, rd in enumerate(c["reads"]):
+                names["read_by_" + ("nickname" if rd["fam"] == "nick" else "table_name")] += 1
+                names["route:" + _names_route(rd, i)["route"] + ("_in_friend_row" if rd["row"] == "Line" else "")] += 1
+            for l in c["links"]:
+                names["link_" + l["via"]] += 1
+            names["option_pid_given"] += c["pid"] is not None
+            names["option_big_ids"] += bool(c["big"])
+            exprs = names_exprs(c)
+            for r in o.get("runs", []):
+                outcomes["names-run:" + ("skip" if "skip" in r else (r.get("err") or "ok")[:40])] += 1
+                names["runs_continued" if r.get("continued") else "runs_fresh"] += 1
+                names["runs_continued_via_" + str(r.get("via"))] += bool(r.get("continued"))
+                names["cells"] += len(r.get("cells", []))
+                fams, spell = {}, {}
+                for i, ri, v in r.get("cells", []):
+                    if 0 <= i < len(c["reads"]):
+                        rd = c["reads"][i]
+                        fams.setdefault((rd["h"], rd["g"]), set()).add(rd["fam"])
+                        spell.setdefault((rd["h"], rd["g"]), set()).add(exprs[i])
+                names["generator_read_through_2+_names_in_a_run"] += sum(1 for x in spell.values() if len(x) >= 2)
+                both = [key for key, x in fams.items() if len(x) == 2]
+                names["generator_read_by_nickname_AND_table_name_in_a_run"] += len(both)
+                if r.get("continued"):
+                    names["...of_these_in_a_continued_run"] += len(both)
+                    names["...of_these_in_a_continued_run_just_once_holder_template_without_context"] += sum(
+                        1 for (h, g) in both
+                        if c["holders"][h].get("kind", "once") == "once" and "PContext" not in (_names_spec(c, c["holders"][h]["gens"][g])[1] or ("PContext",)))
     return {"kinds": dict(kinds), "scramble_numbers": total_numbers, "number_digits": dict(digits),
             "minbits": dict(minbits), "alphabet_sizes": {str(k): v for k, v in sorted(abc_sizes.items())},
             "generator_types": dict(gen_types), "template_lengths": {str(k): v for k, v in tpl_len.items()},
@@ -2557,6 +3176,7 @@ def stats(cases, obss):
             "total_generator_draws": total_draws, "recipe_modes": dict(recipe_modes), "recipe_rows": recipe_rows, "features": dict(features),
             "chains_of_runs_in_one_process": dict(chain),
             "way_in_and_way_out_of_recipes": dict(wayout),
+            "one_generator_several_names": dict(names),
             "outcomes": dict(outcomes)}
 
 
@@ -2595,6 +3215,32 @@ def shrink(case):
                 yield dict(case, steps=steps[:i] + [dict(st, iterations=1)] + steps[i + 1:])
         if case.get("checkpoints") == "every":
             yield dict(case, checkpoints="end")
+    elif kind == "names":
+        links = case["links"]
+        for i in range(len(links)):
+            if len(links) > 1:
+                rest = links[:i] + links[i + 1:]
+                yield dict(case, links=[dict(rest[0], cont=False)] + rest[1:])
+        for i, l in enumerate(links):
+            if l["n"] > 1:
+                yield dict(case, links=links[:i] + [dict(l, n=1)] + links[i + 1:])
+            if l["via"] != "text":
+                yield dict(case, links=links[:i] + [dict(l, via="text")] + links[i + 1:])
+        reads = case["reads"]
+        for i in range(len(reads)):
+            if len(reads) > 2:
+                yield dict(case, reads=reads[:i] + reads[i + 1:])
+        for i, rd in enumerate(reads):
+            if rd["route"] != "direct" or rd["row"] != "Order":
+                yield dict(case, reads=reads[:i] + [dict(rd, route="direct", row="Order")] + reads[i + 1:])
+        if case["count"] > 1:
+            yield dict(case, count=1)
+        if case["lines"] and all(rd["row"] == "Order" for rd in reads):
+            yield dict(case, lines=0)
+        if case["pid"] is not None:
+            yield dict(case, pid=None)
+        if case["big"] is not None:
+            yield dict(case, big=None)
     elif kind == "recipe":
         if case["iterations"] > 1:
             yield dict(case, iterations=case["iterations"] - 1)
@@ -2621,4 +3267,6 @@ def directed_search(rng, disagreeing):
     out.extend(gen_chain(rng, "quick") for _ in range(30))
     out.extend(gen_literal_pairs(rng) for _ in range(30))
     out.extend(gen_padding_probe(rng, abc) for abc in ("GATC", "TGCA", "ZYX", "BA", "cba", None, None, None))
+    out.extend(gen_names_edges())
+    out.extend(gen_names(rng, no_context=True, vias=["text", "path", "cli"]) for _ in range(60))
     return out
